@@ -70,6 +70,9 @@ impl Packet {
             return match packet_type {
                 PacketType::PingReq => Ok(Packet::PingReq(PingReq)),
                 PacketType::PingResp => Ok(Packet::PingResp(PingResp)),
+                PacketType::Disconnect => Ok(Packet::Disconnect(Disconnect::new(
+                    DisconnectReasonCode::NormalDisconnection,
+                ))),
                 _ => Err(Error::PayloadRequired),
             };
         }
